@@ -33,14 +33,14 @@ Definition count_events {B E} (p : event B E -> bool) (l : list (event B E)) : n
 
 Definition run_trace (modes : list nat) (normalize linesearch cb : bool) (n_iter_max : nat) (stop_at : option nat)
            (accept_ls : bool) : trace_obs :=
-  let orc := mkOracle unit (fun _ _ _ => tt) (fun st => st) (fun _ _ st => st) (fun _ => accept_ls)
+  let orc := @mkOracle unit (fun _ _ _ => tt) (fun st => st) (fun _ _ st => st) (fun _ => accept_ls)
                       (fun it => match stop_at with Some j => Nat.eqb it j | None => false end) in
   let cfg := mkConfig modes (last modes 0%nat) normalize false false linesearch true cb in
-  let l := run unit unit (fun _ _ _ => tt) (fun _ => tt) orc cfg n_iter_max (fun _ => tt) in
-  mkObs (length (errs unit unit l))
-        (count_events (fun ev => match ev with ECallback _ _ _ _ => true | _ => false end) (trace unit unit l))
-        (count_events (fun ev => match ev with EUpdate _ _ _ => true | _ => false end) (trace unit unit l))
-        (Nat.ltb 0%nat (count_events (fun ev => match ev with EBreak _ _ => true | _ => false end) (trace unit unit l))).
+  let l := @run unit unit (fun _ _ _ => tt) (fun _ => tt) orc cfg n_iter_max (fun _ => tt) in
+  mkObs (length (errs l))
+        (count_events (fun ev => match ev with ECallback _ _ => true | _ => false end) (trace l))
+        (count_events (fun ev => match ev with EUpdate _ => true | _ => false end) (trace l))
+        (Nat.ltb 0%nat (count_events (fun ev => match ev with EBreak => true | _ => false end) (trace l))).
 
 Definition obs_eqb (a b : trace_obs) : bool :=
   Nat.eqb (n_reports a) (n_reports b) && Nat.eqb (n_callbacks a) (n_callbacks b) &&
